@@ -17,6 +17,7 @@ package main
 import (
 	"fmt"
 	"math"
+	"runtime/debug"
 	"sort"
 	"time"
 
@@ -29,38 +30,47 @@ import (
 )
 
 func main() {
+	debug.SetGCPercent(400) // many small short-lived messages; the oracle never looks at time or memory
 	run.Main(run.Spec{
 		Property: "C13",
 		Level:    "exploration",
 		Rule: "case = generated ActionResult (0-40 output files, 0-6 output directories with/without root digest, nested/empty/shared/hostile Trees, inlined contents, unset and malformed digests, 8 digest functions, 4 instance names) x CAS state and behaviour x decorator configuration (batch size, message size limit, tree size budget) x access path; " +
-			"groups: random (random missing subsets, served corruption, stream errors, call faults, CAS changing during the call, AC faults), each-missing (every referenced object removed in turn), each-fault (every CAS call failed in turn, every Tree stream failed at every offset), tree-bytes (every byte of a Tree truncated/flipped, served under the old digest and stored under a recomputed one), budget (limits around the Tree size totals), each-malformed (every digest slot malformed in turn); " +
+			"groups: random (random missing subsets, served corruption, stream errors, call faults, CAS changing during the call, AC faults), each-missing (every referenced object removed in turn), each-fault (every CAS call failed in turn, every Tree stream failed at every offset), tree-bytes (every byte of a Tree truncated/flipped, served under the old digest and stored under a recomputed one), budget (limits around the Tree size totals), each-malformed (every digest slot malformed in turn), changing-cas (a referenced object removed from / inserted into the CAS at every call index of the Get); " +
 			"distinct = hash of (ActionResult shape and bytes, variation label); all variations other than the fault-free baseline are non-trivial",
 		Workers:     8,
 		CaseTimeout: 120 * time.Second,
 		Floors: map[string]int64{
-			"gets_total":                            40000,
-			"results_returned":                      4000,
-			"returned_with_references":              3000,
-			"references_verified_present":           20000,
-			"refused_missing":                       4000,
-			"refused_single_missing_output-file":    200,
-			"refused_single_missing_stdout":         40,
-			"refused_single_missing_stderr":         40,
-			"refused_single_missing_tree":           80,
-			"refused_single_missing_root-directory": 40,
-			"refused_single_missing_tree-file":      200,
-			"refused_single_missing_tree-directory": 40,
-			"refused_malformed":                     1000,
-			"refused_oversized":                     100,
-			"refused_cas_fault":                     1000,
-			"refused_tree_corrupt-served":           2000,
-			"refused_tree_stream-error":             1000,
-			"refused_tree_unparseable":              1000,
-			"returned_unrequired_directory_absent":  100,
-			"returned_after_tree_mutation":          100,
-			"budget_at_limit_returned":              40,
-			"multi_batch_gets":                      4000,
-			"flaky_runs":                            40,
+			"gets_total":                              40000,
+			"results_returned":                        1900,
+			"returned_with_references":                1900,
+			"references_verified_present":             18000,
+			"refused_missing":                         4000,
+			"refused_single_missing_output-file":      600,
+			"refused_single_missing_stdout":           80,
+			"refused_single_missing_stderr":           90,
+			"refused_single_missing_tree":             190,
+			"refused_single_missing_root-directory":   110,
+			"refused_single_missing_tree-file":        2400,
+			"refused_single_missing_tree-directory":   220,
+			"refused_malformed":                       3700,
+			"refused_single_malformed_output-file":    370,
+			"refused_single_malformed_stdout":         60,
+			"refused_single_malformed_stderr":         60,
+			"refused_single_malformed_tree":           120,
+			"refused_single_malformed_root-directory": 50,
+			"refused_single_malformed_tree-file":      2700,
+			"refused_single_malformed_tree-directory": 330,
+			"refused_oversized":                       220,
+			"refused_cas_fault":                       500,
+			"refused_tree_corrupt-served":             10000,
+			"refused_tree_stream-error":               5000,
+			"refused_tree_unparseable":                6000,
+			"returned_unrequired_directory_absent":    550,
+			"returned_after_tree_mutation":            700,
+			"budget_at_limit_returned":                78,
+			"multi_batch_gets":                        9000,
+			"flaky_runs":                              900,
+			"flaky_returned":                          400,
 		},
 		Assumptions: []string{
 			"'reported present during that call' is decided from the model CAS's per-call log of FindMissing requests and replies",
@@ -71,6 +81,20 @@ func main() {
 		},
 		Body: body,
 	})
+}
+
+// caseRng derives the case's generator from c.Rng and a strong mix of the run
+// seed. lib/gen.New folds its seeds in with a plain XOR, so that for 8 workers
+// the seeds 1, 2 and 3 yield the same eight per-worker streams in a different
+// order (2C-1, 2C+2, 2C+1 differ from each other only in the three low bits,
+// which is exactly what XOR-ing the worker index 0..7 permutes). Everything is
+// still a function of (seed, worker, group, case index), so replays work.
+func caseRng(c *run.Case, w *run.Worker) *gen.Rng {
+	z := (w.Seed + 1) * 0x9e3779b97f4a7c15
+	z = (z ^ (z >> 30)) * 0xbf58476d1ce4e5b9
+	z = (z ^ (z >> 27)) * 0x94d049bb133111eb
+	z ^= z >> 31
+	return gen.New(z, c.Rng.Uint64(), c.Rng.Uint64())
 }
 
 var faultCodes = []codes.Code{codes.Unavailable, codes.Internal, codes.DeadlineExceeded, codes.NotFound, codes.Canceled, codes.ResourceExhausted}
@@ -141,8 +165,8 @@ func unrequiredAbsent(w *world, exp *expectation) bool {
 
 func body(w *run.Worker) {
 	// ------------------------------------------------------------------ random
-	w.Cases("random", w.N(2400, 100000), func(c *run.Case) {
-		r := c.Rng
+	w.Cases("random", w.N(2400, 60000), func(c *run.Case) {
+		r := caseRng(c, w)
 		h := harness{c, w}
 		o := randomOpts(r)
 		o.nilTreeOK = r.Chance(1, 10)
@@ -216,12 +240,7 @@ func body(w *run.Worker) {
 			wd.cas.faultAt, wd.cas.faultErr = r.Intn(6), faultErr(r.Intn(6))
 			mode += fmt.Sprintf(" fault@%d", wd.cas.faultAt)
 		}
-		var leaves []string
-		for _, k := range exp.order {
-			if exp.required[k] != "tree" { // Trees keep their state: the reference needs their bytes
-				leaves = append(leaves, k)
-			}
-		}
+		leaves := exp.leaves() // Trees keep their state: the reference needs their bytes
 		if len(leaves) > 0 && r.Chance(1, 8) {
 			// The CAS changes while the decorator is running (concurrent
 			// expiry or upload): only what it reported counts.
@@ -269,13 +288,7 @@ func body(w *run.Worker) {
 		if c.Index < 2 {
 			w.Sample(map[string]any{"group": "random", "world": wd.shape, "variation": cfg.label, "batch": cfg.batch})
 		}
-		out := h.execute(wd, cfg)
-		if out.calls > 3 {
-			w.Count("multi_batch_gets", 1)
-		}
-		if out.ok && unrequiredAbsent(wd, out.exp) {
-			w.Count("returned_unrequired_directory_absent", 1)
-		}
+		h.execute(wd, cfg)
 		if !cfg.flaky {
 			// Same world, other batch size and access path.
 			cfg2 := cfg
@@ -287,8 +300,8 @@ func body(w *run.Worker) {
 	})
 
 	// ------------------------------------------------------------ each-missing
-	w.Cases("each-missing", w.N(640, 24000), func(c *run.Case) {
-		r := c.Rng
+	w.Cases("each-missing", w.N(640, 12000), func(c *run.Case) {
+		r := caseRng(c, w)
 		h := harness{c, w}
 		o := cleanOpts(r)
 		o.nilPerMille = r.Pick(0, 0, 100)
@@ -301,13 +314,7 @@ func body(w *run.Worker) {
 		c.Desc("%s | every one of %d referenced objects removed in turn", wd.shape, nR)
 		cfg.batch = batchFor(r, nR)
 		cfg.label = "each-missing base"
-		out := h.execute(wd, cfg)
-		if out.calls > 3 {
-			w.Count("multi_batch_gets", 1)
-		}
-		if out.ok && unrequiredAbsent(wd, out.exp) {
-			w.Count("returned_unrequired_directory_absent", 1)
-		}
+		h.execute(wd, cfg)
 		if c.Index == 0 {
 			w.Sample(map[string]any{"group": "each-missing", "world": wd.shape, "referenced_objects": nR})
 		}
@@ -321,18 +328,15 @@ func body(w *run.Worker) {
 			}
 			cfg.path = (i + int(c.Index)) % 3
 			cfg.label = fmt.Sprintf("each-missing %s#%d batch=%d", exp.required[k], i, cfg.batch)
-			res := h.execute(wd, cfg)
-			if res.calls > 3 {
-				w.Count("multi_batch_gets", 1)
-			}
+			h.execute(wd, cfg)
 			w.Count("single_missing_probes", 1)
 			wd.cas.objects[k] = data
 		}
 	})
 
 	// -------------------------------------------------------------- each-fault
-	w.Cases("each-fault", w.N(400, 15000), func(c *run.Case) {
-		r := c.Rng
+	w.Cases("each-fault", w.N(320, 6000), func(c *run.Case) {
+		r := caseRng(c, w)
 		h := harness{c, w}
 		o := cleanOpts(r)
 		o.maxFiles = r.Pick(3, 6, 12)
@@ -374,8 +378,8 @@ func body(w *run.Worker) {
 	})
 
 	// -------------------------------------------------------------- tree-bytes
-	w.Cases("tree-bytes", w.N(320, 12000), func(c *run.Case) {
-		r := c.Rng
+	w.Cases("tree-bytes", w.N(240, 5000), func(c *run.Case) {
+		r := caseRng(c, w)
 		h := harness{c, w}
 		o := cleanOpts(r)
 		o.maxFiles, o.maxDirs, o.bigTree = 3, 2, false
@@ -453,9 +457,49 @@ func body(w *run.Worker) {
 		delete(wd.cas.serve, k)
 	})
 
+	// ------------------------------------------------------------ changing-cas
+	// A referenced object disappears from, or appears in, the CAS when the
+	// n-th CAS call of the Get starts (expiry / upload racing with the check).
+	// Only what the CAS reported during the call decides.
+	w.Cases("changing-cas", w.N(240, 6000), func(c *run.Case) {
+		r := caseRng(c, w)
+		h := harness{c, w}
+		o := cleanOpts(r)
+		o.maxFiles = r.Pick(3, 6)
+		wd := buildWorld(*r.Fork(), o, -1, 0)
+		cfg := baseCfg(r, 1)
+		exp := evaluate(wd, cfg)
+		prune(r, wd, exp)
+		cfg.batch = r.Pick(1, 2, 3)
+		leaves := exp.leaves()
+		c.Desc("%s | batch=%d: one of %d non-Tree references removed/inserted at every CAS call index", wd.shape, cfg.batch, len(leaves))
+		cfg.label = "changing-cas base"
+		base := h.execute(wd, cfg)
+		if len(leaves) == 0 {
+			return
+		}
+		cfg.flaky = true
+		for j := 0; j <= base.calls && j < 40; j++ {
+			k := leaves[r.Intn(len(leaves))]
+			data := wd.cas.objects[k]
+			// present, removed when call j starts
+			wd.cas.flipAt, wd.cas.flipKey, wd.cas.flipDelete = j, k, true
+			cfg.label = fmt.Sprintf("changing-cas %s removed@%d", exp.required[k], j)
+			h.execute(wd, cfg)
+			// absent, inserted when call j starts
+			delete(wd.cas.objects, k)
+			wd.cas.flipDelete, wd.cas.flipData = false, data
+			cfg.label = fmt.Sprintf("changing-cas %s inserted@%d", exp.required[k], j)
+			h.execute(wd, cfg)
+			wd.cas.objects[k] = data
+			w.Count("flaky_runs", 2)
+		}
+		wd.cas.flipAt = -1
+	})
+
 	// ------------------------------------------------------------------ budget
-	w.Cases("budget", w.N(320, 12000), func(c *run.Case) {
-		r := c.Rng
+	w.Cases("budget", w.N(320, 6000), func(c *run.Case) {
+		r := caseRng(c, w)
 		h := harness{c, w}
 		o := cleanOpts(r)
 		o.maxDirs = r.Pick(1, 2, 4, 6)
@@ -486,8 +530,8 @@ func body(w *run.Worker) {
 	})
 
 	// ---------------------------------------------------------- each-malformed
-	w.Cases("each-malformed", w.N(400, 15000), func(c *run.Case) {
-		r := c.Rng
+	w.Cases("each-malformed", w.N(400, 6000), func(c *run.Case) {
+		r := caseRng(c, w)
 		h := harness{c, w}
 		o := cleanOpts(r)
 		o.nilPerMille = r.Pick(0, 0, 100)
